@@ -320,6 +320,9 @@ def run_extraction(ex: Extraction, report):
         elif kind == "desugar_let_chains":
             n = _desugar_let_chains(t)
             rec["rewrites"].append({"rule": "let-chain desugaring: `if let P = E && C {B}` -> `if let P = E { if C {B} }` (only without else)", "count": n})
+        elif kind == "desugar_or_insert_with":
+            n = _desugar_or_insert_with(t, payload.strip())
+            rec["rewrites"].append({"rule": "Entry::or_insert_with desugaring: `E.or_insert_with(|| B)` -> `(match E { %s::Occupied(o) => o.into_mut(), %s::Vacant(v) => v.insert(B) })` (B runs only when the entry is vacant, as in std)" % (payload.strip(), payload.strip()), "count": n})
         elif kind == "desugar_option_closures":
             n = _desugar_option_closures(t)
             rec["rewrites"].append({"rule": "Option combinator desugaring: `E.is_some_and(|P| B)` -> `(match E { Some(P) => { B }, None => false })`, `E.is_none_or(|P| B)` -> `(match E { Some(P) => { B }, None => true })`, `E.map(|P| B).unwrap_or(D)` -> `(match E { Some(P) => { B }, None => D })`, `E.and_then(|P| B)` -> `(match E { Some(P) => { B }, None => None })`, `C.then(|| X)` -> `(if C { Some(X) } else { None })`", "count": n})
@@ -561,6 +564,26 @@ def _receiver_start(mk, dot):
             i = j - 1
             continue
         return i
+
+
+def _desugar_or_insert_with(t: SrcText, enum_path):
+    n = 0
+    while True:
+        mk = mask(t.s)
+        m = re.compile(r"\.\s*or_insert_with\s*\(").search(mk)
+        if not m:
+            return n
+        op = m.end() - 1
+        cp = match_delim(mk, op)
+        inner = t.s[op + 1:cp]
+        mi = re.match(r"\s*\|\s*\|\s*", inner)
+        if not mi:
+            raise Unsupported("or_insert_with with a non-closure argument")
+        body = inner[mi.end():].rstrip().rstrip(",").rstrip()
+        rs = _receiver_start(mk, m.start())
+        recv = t.s[rs:m.start()]
+        t.replace(rs, cp + 1, "(match %s { %s::Occupied(o) => o.into_mut(), %s::Vacant(v) => v.insert(%s) })" % (recv, enum_path, enum_path, body), t.o[m.start()])
+        n += 1
 
 
 def _desugar_option_closures(t: SrcText):
